@@ -155,6 +155,8 @@ enum Need {
     PresClass(&'static str),
     RemClass(&'static str),
     PurgeClass,
+    /// replace the whole value set: needs the attribute granted for adding AND for removing
+    SetAttr(&'static str),
 }
 
 #[derive(Clone, Debug)]
@@ -185,6 +187,9 @@ fn requests() -> Vec<Req> {
         Req::Modify("remove class system", vec![RemClass("system")]),
         Req::Modify("purge class", vec![PurgeClass]),
         Req::Modify("present description", vec![PresAttr("description")]),
+        Req::Modify("set mail (same number of values)", vec![SetAttr("mail")]),
+        Req::Modify("set displayname", vec![SetAttr("displayname")]),
+        Req::Modify("set description", vec![SetAttr("description")]),
         Req::CreatePerson(false),
         Req::CreatePerson(true),
         Req::CreateGroup,
@@ -208,6 +213,13 @@ fn modlist(needs: &[Need]) -> ModifyList<ModifyInvalid> {
             Need::PresClass(c) => v.push(Modify::Present(Attribute::Class, Value::new_iutf8(c))),
             Need::RemClass(c) => v.push(Modify::Removed(Attribute::Class, PartialValue::new_iutf8(c))),
             Need::PurgeClass => v.push(Modify::Purged(Attribute::Class)),
+            Need::SetAttr("mail") => {
+                if let Some(vs) = kanidmd_lib::valueset::ValueSetEmailAddress::from_repl_v1("replaced@example.com", &["replaced@example.com".to_string()]).ok() {
+                    v.push(Modify::Set(Attribute::Mail, vs));
+                }
+            }
+            Need::SetAttr("displayname") => v.push(Modify::Set(Attribute::DisplayName, kanidmd_lib::valueset::ValueSetUtf8::new("set by the actor".to_string()))),
+            Need::SetAttr(_) => v.push(Modify::Set(Attribute::Description, kanidmd_lib::valueset::ValueSetUtf8::new("set by the actor".to_string()))),
         }
     }
     ModifyList::new_list(v)
@@ -400,6 +412,7 @@ fn allowed(set: &[usize], member: bool, scope: usize, classes: &BTreeSet<String>
                     Need::PresClass(c) => !PROT_PRES.contains(c) && has(&|p: &Prof| p.everything || p.pcls.contains(c), &classes, name),
                     Need::RemClass(c) => !PROT_REM.contains(c) && has(&|p: &Prof| p.everything || p.rcls.contains(c), &classes, name),
                     Need::PurgeClass => false,
+                    Need::SetAttr(a) => has(&|p: &Prof| p.everything || p.pres.contains(a), &classes, name) && has(&|p: &Prof| p.everything || p.rem.contains(a), &classes, name),
                 };
                 if !ok {
                     return (false, format!("{n:?} is not granted by any matching profile (or is banned outright)"));
@@ -524,7 +537,7 @@ pub fn run(args: &[String]) -> ! {
     ctx.set("distinct_nontrivial", nontrivial);
     ctx.set("requests_that_took_effect", effective);
     ctx.set("profile_sets", sets.len() as u64);
-    ctx.set("rule", format!("profile sets (empty, each of {n} generated profiles, and pairs: all pairs in thorough, 6 chosen pairs in quick) x actor in/out of the receiver group x scope read-write / read-only / synchronise x 7 targets (person t1, person t2, group, built-in account, synchronised object, recycled entry, tombstone) x 21 requests (16 modifies incl. protected class adds/removes and class purge, 3 creates, delete, revive). Non-trivial = requests the statement forbids for that configuration"));
+    ctx.set("rule", format!("profile sets (empty, each of {n} generated profiles, and pairs: all pairs in thorough, 6 chosen pairs in quick) x actor in/out of the receiver group x scope read-write / read-only / synchronise x 7 targets (person t1, person t2, group, built-in account, synchronised object, recycled entry, tombstone) x 24 requests (19 modifies incl. protected class adds/removes and class purge, 3 creates, delete, revive). Non-trivial = requests the statement forbids for that configuration"));
     ctx.set("mismatches", nbad);
     ctx.set("exhaustive", true);
     ctx.assume("soundness direction only, as the statement is phrased: a request that takes effect must be granted; refusals of granted requests are not judged (a vacuity guard requires that granted requests do take effect somewhere)");
